@@ -587,7 +587,7 @@ func (b *RefinementBuilder) NewValue() (ret Value) {
 
 	return Value{
 		ty: b.orig.ty,
-		v:  &unknownType{refinement: b.wip},
+		v:  &unknownType{refinement: b.wip.copy()},
 	}
 }
 
